@@ -30,6 +30,15 @@ pub fn grid(ctx: &Ctx, st: &Stats, exact: bool) {
             lens.push(l);
         }
     }
+    // grid F: long operands (several iterations of any unrolled vector loop, then every tail residue)
+    let long_lens: Vec<usize> = if quick {
+        vec![383, 384, 385, 511, 512, 513, 1023, 1024, 1025]
+    } else if ctx.quick() {
+        (321..=1100).collect()
+    } else {
+        (321..=2200).chain([4095, 4096, 4097, 8191, 8192, 8193, 65535, 65536, 65537]).collect()
+    };
+    lens.extend(long_lens.iter().copied());
     for op in Op::ALL {
         for &k in &kinds {
             for &l in &lens {
@@ -152,6 +161,37 @@ pub fn grid(ctx: &Ctx, st: &Stats, exact: bool) {
             }
             *local.entry("gridE_binary_units").or_insert(0) += 1;
         }
+        // --- grid F: long operands
+        if len > maxlen {
+            let ds: &[usize] = if exact { &[0] } else { &[0, 1, 63] };
+            let ss: &[usize] = if exact || op == Op::Mul || bin { &[0] } else { &[0, 33] };
+            let mut srcs: Vec<(String, Vec<u8>)> = vec![];
+            if bin {
+                for pat in ["lcg", "alt3", "ff", "00"] {
+                    srcs.push((pat.to_string(), bin_content(pat, len)));
+                }
+                for p in [0, len / 2, len - 65, len - 64, len - 1] {
+                    let name = format!("onehot:{}", p);
+                    srcs.push((name.clone(), bin_content(&name, len)));
+                }
+            } else {
+                srcs.push(("lcg".to_string(), content("lcg", len, 2)));
+                srcs.push(("ff".to_string(), content("ff", len, 2)));
+            }
+            let d0 = content("pos", len, 1);
+            for (sname, s0) in &srcs {
+                for &doff in ds {
+                    for &soff in ss {
+                        let scalars: &[u8] = if op == Op::Add { &[0] } else { &small_scalars };
+                        for &sv in scalars {
+                            let c = Case { op, kind, len, doff, soff, dcontent: "pos".into(), scontent: sname.clone(), scalar: sv };
+                            run(&c, &d0, s0, &mut sc);
+                        }
+                    }
+                }
+            }
+            *local.entry("gridF_long_units").or_insert(0) += 1;
+        }
         if std::env::var("RQ_PROGRESS").is_ok() {
             eprintln!("unit {} {:?} {} len {} calls {} t={:.2} allocs={}", ui, op, kind_name(kind), len, calls, ctx.elapsed(), crate::pageheap::GUARDED.load(std::sync::atomic::Ordering::Relaxed));
         }
@@ -229,10 +269,10 @@ pub fn run(ctx: &Ctx) -> i32 {
     let ml = 320;
     finish(ctx, &st, Finish {
         level: "exploration",
-        rule: format!("every compiled kernel (avx512, avx2, ssse3, portable, each called individually through the hook) and the public dispatcher x 4 operations x every length 0..={} x destination offsets {} x source offsets {{0,1,7,8,31,33,63}} x contents x scalars {{0,1,2,0x1D,0x80,0xFF}} (grid A); all 256 scalars on lengths 0..=70,127..=130,191..=193,255..=257,320 (grid B); 52 rotations x 256 scalars so that every lane sees every byte value with every scalar (grid C); one-hot at every position for len<=130 (grid D); packed bit vectors of every length (all padding-bit counts) with patterns 00/ff/alt/alt3/lcg (grid E). Oracle: element-wise reference field arithmetic, canaries around the destination, source unchanged. Repeated in the debug-assertions build (documented scalar preconditions of the dispatchers respected there), and through the public dispatchers of the no_std build of the library (their real portable path; lengths 0..=320, offsets {{0,1,7}}, all scalars on boundary lengths, bit patterns incl. one-hot). distinct_nontrivial = (operation, kernel, length) units.", ml, "0..63 (debug-assertions build in the quick tier: 11 offsets, lengths <= 256)"),
+        rule: format!("every compiled kernel (avx512, avx2, ssse3, portable, each called individually through the hook) and the public dispatcher x 4 operations x every length 0..={} x destination offsets {} x source offsets {{0,1,7,8,31,33,63}} x contents x scalars {{0,1,2,0x1D,0x80,0xFF}} (grid A); all 256 scalars on lengths 0..=70,127..=130,191..=193,255..=257,320 (grid B); 52 rotations x 256 scalars so that every lane sees every byte value with every scalar (grid C); one-hot at every position for len<=130 (grid D); packed bit vectors of every length (all padding-bit counts) with patterns 00/ff/alt/alt3/lcg (grid E); long operands: every length 321..=1100 (thorough: ..=2200 and 4095..4097, 8191..8193, 65535..65537) x offsets {{0,1,63}} x {{0,33}} x 6 scalars, bit vectors with dense, alternating, empty and one-hot contents (grid F). Oracle: element-wise reference field arithmetic, canaries around the destination, source unchanged. Repeated in the debug-assertions build (documented scalar preconditions of the dispatchers respected there), and through the public dispatchers of the no_std build of the library (their real portable path; lengths 0..=320, offsets {{0,1,7}}, all scalars on boundary lengths, bit patterns incl. one-hot). distinct_nontrivial = (operation, kernel, length) units.", ml, "0..63 (debug-assertions build in the quick tier: 11 offsets, lengths <= 256)"),
         exhaustive: false,
-        assumptions: vec!["NEON kernels cannot execute on this x86 host".into(), "lengths above 320 are not enumerated".into()],
+        assumptions: vec!["NEON kernels cannot execute on this x86 host".into(), "lengths above 1100 (thorough: 2200) only at the listed powers of two".into()],
         extra: Map::new(),
-        must_be_nonzero: vec!["calls_dispatcher", "calls_avx512", "calls_avx2", "calls_ssse3", "calls_portable", "calls_len>=64_avx512", "calls_len>=64_avx2", "calls_with_scalar_tail", "gridC_lane_value_units", "gridE_binary_units", "checked/calls_avx2", "calls_dispatcher_release/no_std", "calls_dispatcher_checked/no_std"],
+        must_be_nonzero: vec!["calls_dispatcher", "calls_avx512", "calls_avx2", "calls_ssse3", "calls_portable", "calls_len>=64_avx512", "calls_len>=64_avx2", "calls_with_scalar_tail", "gridC_lane_value_units", "gridE_binary_units", "gridF_long_units", "checked/calls_avx2", "calls_dispatcher_release/no_std", "calls_dispatcher_checked/no_std"],
     }, replay)
 }
